@@ -1,3 +1,434 @@
-import Kurbo.Kernel
+import Proofs.KDefs
+import Proofs.Lemmas.C18
+import Proofs.Lemmas.C18Real
+import Proofs.C06
+/-! C18 – curve fitting / offsetting / simplification: the ingredients of the fitter.
+
+    "The path fitted to a source curve starts and ends at the source's end points, is continuous, and stays within
+    about the requested accuracy of the source.  For the offset of a cubic whose curvature radius exceeds the offset
+    distance, every point of the fitted path lies at the offset distance from the source curve to that accuracy. …"
+
+    The acceptance test of the fitter is an approximate error estimate, so no accuracy theorem is possible (accuracy
+    is decided by an exact-distance oracle on the implementation).  What is proved here is that the kernel functions
+    the fitter is built on (`momentIntegrals`, `CubicOffset.new/eval_offset/eval/cusp_sign/eval_deriv` of
+    `Kurbo/Kernel.lean`, translator output of `simplify.rs` / `offset.rs`, exactly as they are) compute what their
+    documentation says.
+
+    What is proved:
+
+    A. `momentIntegrals`
+       1. (ℝ) `moment_integrals_spec`: `momentIntegrals c = (∫₀¹ y·x′, ∫₀¹ x·y·x′, ∫₀¹ y²·x′)` with `x, y` the coordinates
+          of the model's `c.eval t` and `x′` of `c.deriv.eval t` – exactly the documented "integrals of y dx, x y dx and
+          y² dx", no stray factor or sign.  `moment_integrals_subsegment_spec`: for the sub-segment `[t0,t1]` (any order)
+          the same integrals of the ORIGINAL curve over `t0..t1`.  `moment_integrals_quad_spec`,
+          `moment_integrals_line_spec`: the same for the cubics `SimplifyBezPath::new` makes of quadratic and line
+          segments (`to_cubic`), along the segment's own `eval`.
+       2. (any lawful scalar, polynomial identities)
+          `moment_integrals_subsegment` – the value on a sub-segment is a difference `P(t1) − P(t0)` of one polynomial
+          primitive `P = c18_momentPrim c` with `P(0) = 0`, `P(1) = momentIntegrals c`; hence
+          `moment_integrals_split` (`⟨t0,t1⟩ + ⟨t1,t2⟩ = ⟨t0,t2⟩`, no ordering assumed), `moment_integrals_additive`
+          (`⟨0,t⟩ + ⟨t,1⟩ = whole`), `moment_integrals_subsegment_full/empty/swap`;
+          `moment_integrals_translate`; `moment_integrals_area` (first component = `½(x3·y3 − x0·y0) − signed_area`,
+          and the chord form `moment_integrals_area_chord`); `moment_integrals_line_any` (every cubic whose two inner
+          control points lie anywhere on the line through its end points has the moment integrals of the straight
+          segment; special cases `moment_integrals_line` – controls at the thirds – and
+          `moment_integrals_line_to_cubic` – `PathSeg.Line.to_cubic`, which puts them ON the end points);
+          `moment_integrals_reverse`.
+    B. `CubicOffset` (ℝ with `C18RealLaws`: `Scalar.sqrt = √`, `Scalar.hypot x y = √(x²+y²)`; inhabited)
+       3. `offset_point_distance`: where `c′(t) ≠ 0`, `o = (CubicOffset.new c d).eval t − c.eval t` has `|o|² = d²`,
+          `o ⋅ c′(t) = 0` and `c′(t) × o = d·|c′(t)|`: `o = d · turn_90(c′/|c′|)`, `turn_90 (x,y) = (−y,x)`.  For `d > 0`
+          this is the side towards which `+x` turns into `+y` (the LEFT of the direction of travel when `y` points up,
+          the RIGHT on a `y`-down screen).  `offset_point_degenerate`: where `c′(t) = 0` the model's offset vector is
+          `0` (lawful division by zero; in `f64` it is `NaN` – the source has a `TODO: deal with hypot = 0`).
+          `offset_eval_zero`, `offset_eval_one`: the end points of the offset curve.
+       4. `cusp_sign_numerator` (any lawful scalar, nothing assumed about `sqrt`): the quadratic
+          `(c2·t + c1)·t + c0` is exactly `d · (c″(t) × c′(t))`, `c″ = c.deriv.deriv` (constant factor `1`, as the comment
+          in the source says); `cusp_sign_model_form`, `offset_eval_deriv_eq` (unfoldings).
+          `cusp_sign_formula` (ℝ): `cusp_sign t = 1 + d·(c″×c′)/|c′|³`, `cusp_sign_curvature`: `= 1 − d·κ(t)` with the
+          usual signed curvature `κ = (c′×c″)/|c′|³` (positive when turning from `+x` towards `+y`);
+          `cusp_sign_pos_iff`: positive iff `d·κ < 1`.
+       5. `offset_deriv`: `eval_deriv t` IS the derivative of `u ↦ (CubicOffset.new c d).eval u` at `t`, coordinate by
+          coordinate, wherever `c′(t) ≠ 0`.
+
+    What is NOT proved:
+    * nothing about `fit_to_bezpath`, `fit_to_bezpath_opt`, `SimplifyBezPath`'s prefix sums / index arithmetic
+      (`scale`, the `i0 == i1` branching), `CubicOffset::sample_pt_tangent` / `break_cusp`, `new_regularized`, or the
+      accuracy of any fitted path; the additivity theorems are the algebraic fact the prefix sums rely on, the loop
+      itself is not modelled here.
+    * `offset_point_distance` is about the distance to the CORRESPONDING source point `c(t)`; that no other point of
+      the source curve is nearer (the global "lies at the offset distance from the source curve", which needs the
+      curvature-radius condition) is not proved.
+    * everything is about exact (lawful) scalars; nothing about `Float` rounding.
+    * part B (except `cusp_sign_numerator`, `cusp_sign_model_form`) needs `sqrt`/`hypot` to be exact, so it is stated
+      over ℝ only (`Rat`'s `ratSqrt` is an approximation).
+    Helper lemmas: `Proofs/Lemmas/C18.lean`, `Proofs/Lemmas/C18Real.lean`; `cubic_deriv_hasDerivAt`,
+    `quad_deriv_hasDerivAt`, `quad_raise_eval`, `cubic_eval_zero_one` are used from `Proofs/C06.lean`. -/
+set_option linter.unusedSectionVars false
+
+/-! ## A.1 the documented integrals (ℝ) -/
 namespace Kurbo
+section real
+variable [Scalar ℝ] [LawfulScalar ℝ]
+
+/-- "computes the integrals of y dx, x y dx, and y² dx over the length of this curve" – exactly, for the model's own
+    `eval` and `deriv` -/
+theorem moment_integrals_spec (c : CubicBez ℝ) :
+    momentIntegrals c =
+      (∫ t in (0:ℝ)..1, (c.eval t).y * (c.deriv.eval t).x,
+       ∫ t in (0:ℝ)..1, (c.eval t).x * (c.eval t).y * (c.deriv.eval t).x,
+       ∫ t in (0:ℝ)..1, (c.eval t).y ^ 2 * (c.deriv.eval t).x) := by
+  rw [c18_integrals_eq_prim, c18_momentPrim_zero, c18_mi_eq_prim, sub_zero]
+
+/-- what `SimplifyBezPath::moment_integrals(i, t0..t1)` computes: the integrals of the ORIGINAL cubic over `t0..t1`
+    (any order of `t0 t1`, also outside `[0,1]`) -/
+theorem moment_integrals_subsegment_spec (c : CubicBez ℝ) (t0 t1 : ℝ) :
+    momentIntegrals (c.subsegment ⟨t0, t1⟩) =
+      (∫ t in t0..t1, (c.eval t).y * (c.deriv.eval t).x,
+       ∫ t in t0..t1, (c.eval t).x * (c.eval t).y * (c.deriv.eval t).x,
+       ∫ t in t0..t1, (c.eval t).y ^ 2 * (c.deriv.eval t).x) := by
+  rw [c18_integrals_eq_prim, c18_mi_subsegment]
+
+/-- quadratic segments enter `SimplifyBezPath::new` through `to_cubic = raise`: the same three integrals along the
+    quadratic's own `eval` / `deriv` -/
+theorem moment_integrals_quad_spec (q : QuadBez ℝ) :
+    momentIntegrals (PathSeg.Quad q).to_cubic =
+      (∫ t in (0:ℝ)..1, (q.eval t).y * (q.deriv.eval t).x,
+       ∫ t in (0:ℝ)..1, (q.eval t).x * (q.eval t).y * (q.deriv.eval t).x,
+       ∫ t in (0:ℝ)..1, (q.eval t).y ^ 2 * (q.deriv.eval t).x) := by
+  show momentIntegrals q.raise = _
+  rw [moment_integrals_spec]
+  simp only [quad_raise_eval, c18_raise_deriv_eval]
+
+/-- line segments enter through `to_cubic = CubicBez(p0, p0, p1, p1)`, which is NOT the line's own parametrisation
+    (`Line.eval`), but the three line integrals do not depend on the parametrisation: they are those along
+    `Line.eval` with its constant velocity `p1 − p0` (closed forms: `moment_integrals_line_to_cubic`) -/
+theorem moment_integrals_line_spec (l : Line ℝ) :
+    momentIntegrals (PathSeg.Line l).to_cubic =
+      (∫ t in (0:ℝ)..1, (l.eval t).y * (l.p1.x - l.p0.x),
+       ∫ t in (0:ℝ)..1, (l.eval t).x * (l.eval t).y * (l.p1.x - l.p0.x),
+       ∫ t in (0:ℝ)..1, (l.eval t).y ^ 2 * (l.p1.x - l.p0.x)) := by
+  rw [c18_line_integrals]
+  cases l
+  simp only [PathSeg.to_cubic, momentIntegrals, kdefs, scalar_norm, Prod.mk.injEq]
+  push_cast
+  refine ⟨?_, ?_, ?_⟩ <;> ring
+
+end real
+end Kurbo
+
+/-! ## A.2 polynomial identities (any lawful scalar) -/
+namespace Kurbo
+variable {K : Type} [Field K] [LinearOrder K] [IsStrictOrderedRing K] [FloorRing K] [Scalar K] [LawfulScalar K]
+
+/-- the moment integrals of a sub-segment are a difference of one polynomial primitive of the whole cubic
+    (`c18_momentPrim c`, an explicit polynomial of degree ≤ 9 in `t`, see `Proofs/Lemmas/C18.lean`), which vanishes at
+    `0` and is `momentIntegrals c` at `1` -/
+theorem moment_integrals_subsegment (c : CubicBez K) (t0 t1 : K) :
+    momentIntegrals (c.subsegment ⟨t0, t1⟩) = c18_momentPrim c t1 - c18_momentPrim c t0 ∧
+    c18_momentPrim c 0 = 0 ∧ c18_momentPrim c 1 = momentIntegrals c :=
+  ⟨c18_mi_subsegment c t0 t1, c18_momentPrim_zero c, (c18_mi_eq_prim c).symm⟩
+
+/-- additive over any split of the parameter range; no ordering of `t0 t1 t2` assumed -/
+theorem moment_integrals_split (c : CubicBez K) (t0 t1 t2 : K) :
+    momentIntegrals (c.subsegment ⟨t0, t1⟩) + momentIntegrals (c.subsegment ⟨t1, t2⟩)
+      = momentIntegrals (c.subsegment ⟨t0, t2⟩) := by
+  simp only [c18_mi_subsegment]; abel
+
+/-- the whole range gives the whole cubic's moment integrals -/
+theorem moment_integrals_subsegment_full (c : CubicBez K) :
+    momentIntegrals (c.subsegment ⟨0, 1⟩) = momentIntegrals c := by
+  rw [c18_mi_subsegment, c18_momentPrim_zero, c18_mi_eq_prim, sub_zero]
+
+/-- what the prefix sums of `SimplifyBezPath` rely on: splitting at any `t` (also outside `[0,1]`) -/
+theorem moment_integrals_additive (c : CubicBez K) (t : K) :
+    momentIntegrals (c.subsegment ⟨0, t⟩) + momentIntegrals (c.subsegment ⟨t, 1⟩) = momentIntegrals c := by
+  rw [moment_integrals_split, moment_integrals_subsegment_full]
+
+/-- the empty range gives `(0,0,0)` – consistent with the special case `range.end == range.start` in
+    `SimplifyBezPath::moment_integrals` -/
+theorem moment_integrals_subsegment_empty (c : CubicBez K) (t : K) :
+    momentIntegrals (c.subsegment ⟨t, t⟩) = 0 := by
+  rw [c18_mi_subsegment]; simp
+
+/-- swapping the range negates -/
+theorem moment_integrals_subsegment_swap (c : CubicBez K) (t0 t1 : K) :
+    momentIntegrals (c.subsegment ⟨t1, t0⟩) = - momentIntegrals (c.subsegment ⟨t0, t1⟩) := by
+  simp only [c18_mi_subsegment]; abel
+
+/-- reversing the cubic negates all three (line integrals change sign with the direction of travel) -/
+theorem moment_integrals_reverse (c : CubicBez K) :
+    momentIntegrals ⟨c.p3, c.p2, c.p1, c.p0⟩ = - momentIntegrals c := by
+  simp only [momentIntegrals, kdefs, scalar_norm, Prod.neg_mk, Prod.mk.injEq]
+  push_cast
+  refine ⟨?_, ?_, ?_⟩ <;> ring
+
+/-- translation by `v`, with `(A, Mx, My) = momentIntegrals c` and `Δx = x3 − x0`:
+    `A ↦ A + v.y·Δx`, `Mx ↦ Mx + v.x·A + v.y·(x3² − x0²)/2 + v.x·v.y·Δx`, `My ↦ My + 2·v.y·A + v.y²·Δx` -/
+theorem moment_integrals_translate (c : CubicBez K) (v : Vec2 K) :
+    momentIntegrals ⟨c.p0 + v, c.p1 + v, c.p2 + v, c.p3 + v⟩ =
+      ((momentIntegrals c).1 + v.y * (c.p3.x - c.p0.x),
+       (momentIntegrals c).2.1 + v.x * (momentIntegrals c).1 + v.y * (c.p3.x ^ 2 - c.p0.x ^ 2) / 2
+         + v.x * v.y * (c.p3.x - c.p0.x),
+       (momentIntegrals c).2.2 + 2 * v.y * (momentIntegrals c).1 + v.y ^ 2 * (c.p3.x - c.p0.x)) := by
+  simp only [momentIntegrals, kdefs, scalar_norm, Prod.mk.injEq]
+  push_cast
+  refine ⟨?_, ?_, ?_⟩ <;> ring
+
+/-- first component against the signed area: `∫ y dx = ½·[x·y]₀¹ − ½∫(x dy − y dx)` -/
+theorem moment_integrals_area (c : CubicBez K) :
+    (momentIntegrals c).1 = (c.p3.x * c.p3.y - c.p0.x * c.p0.y) / 2 - c.signed_area := by
+  simp only [momentIntegrals, kdefs, scalar_norm]
+  push_cast
+  ring
+
+/-- the same with the chord: the trapezoid under the chord `p0 → p3` minus the signed area between curve and chord
+    (curve followed by the chord back).  Summed over a closed path the first components give MINUS `area()`. -/
+theorem moment_integrals_area_chord (c : CubicBez K) :
+    (momentIntegrals c).1 = (c.p3.x - c.p0.x) * (c.p0.y + c.p3.y) / 2
+      - (c.signed_area - (Line.mk c.p0 c.p3).signed_area) := by
+  simp only [momentIntegrals, kdefs, scalar_norm]
+  push_cast
+  ring
+
+/-- a cubic whose inner control points lie ANYWHERE on the line through `p0, p3` (`p0 + s·(p3−p0)`, `p0 + u·(p3−p0)`):
+    the three integrals depend on the end points only -/
+theorem moment_integrals_line_any (l : Line K) (s u : K) :
+    momentIntegrals ⟨l.p0, l.eval s, l.eval u, l.p1⟩ =
+      ((l.p1.x - l.p0.x) * (l.p0.y + l.p1.y) / 2,
+       (l.p1.x - l.p0.x) * (2 * l.p0.x * l.p0.y + l.p0.x * l.p1.y + l.p1.x * l.p0.y + 2 * l.p1.x * l.p1.y) / 6,
+       (l.p1.x - l.p0.x) * (l.p0.y ^ 2 + l.p0.y * l.p1.y + l.p1.y ^ 2) / 3) := by
+  simp only [momentIntegrals, kdefs, scalar_norm, Prod.mk.injEq]
+  push_cast
+  refine ⟨?_, ?_, ?_⟩ <;> ring
+
+/-- the straight line `p0 → p3` with the control points at the thirds -/
+theorem moment_integrals_line (p0 p3 : Point K) :
+    momentIntegrals ⟨p0, p0.lerp p3 (1 / 3), p0.lerp p3 (2 / 3), p3⟩ =
+      ((p3.x - p0.x) * (p0.y + p3.y) / 2,
+       (p3.x - p0.x) * (2 * p0.x * p0.y + p0.x * p3.y + p3.x * p0.y + 2 * p3.x * p3.y) / 6,
+       (p3.x - p0.x) * (p0.y ^ 2 + p0.y * p3.y + p3.y ^ 2) / 3) :=
+  moment_integrals_line_any ⟨p0, p3⟩ (1 / 3) (2 / 3)
+
+/-- the cubic `SimplifyBezPath::new` makes of a line segment (`to_cubic` puts the control points on the end points) -/
+theorem moment_integrals_line_to_cubic (l : Line K) :
+    momentIntegrals (PathSeg.Line l).to_cubic =
+      ((l.p1.x - l.p0.x) * (l.p0.y + l.p1.y) / 2,
+       (l.p1.x - l.p0.x) * (2 * l.p0.x * l.p0.y + l.p0.x * l.p1.y + l.p1.x * l.p0.y + 2 * l.p1.x * l.p1.y) / 6,
+       (l.p1.x - l.p0.x) * (l.p0.y ^ 2 + l.p0.y * l.p1.y + l.p1.y ^ 2) / 3) := by
+  cases l
+  simp only [PathSeg.to_cubic, momentIntegrals, kdefs, scalar_norm, Prod.mk.injEq]
+  push_cast
+  refine ⟨?_, ?_, ?_⟩ <;> ring
+
+end Kurbo
+
+/-! ## B. `CubicOffset` -/
+namespace Kurbo
+
+/-! ### B.4 the cusp quadratic (any lawful scalar; nothing is assumed about `Scalar.sqrt`) -/
+section lawful
+variable {K : Type} [Field K] [LinearOrder K] [IsStrictOrderedRing K] [FloorRing K] [Scalar K] [LawfulScalar K]
+
+/-- the quadratic `(c2·t + c1)·t + c0` prepared by `CubicOffset.new` is `d · (c″(t) × c′(t))` with
+    `c′ = c.deriv`, `c″ = c.deriv.deriv` (`a × b = a.x·b.y − a.y·b.x`); the constant factor is `1` -/
+theorem cusp_sign_numerator (c : CubicBez K) (d t : K) :
+    ((CubicOffset.new c d).c2 * t + (CubicOffset.new c d).c1) * t + (CubicOffset.new c d).c0
+      = d * ((c.deriv.deriv.eval t).x * (c.deriv.eval t).y - (c.deriv.deriv.eval t).y * (c.deriv.eval t).x) := by
+  simp only [CubicOffset.new, kdefs, scalar_norm]
+  push_cast
+  ring
+
+/-- `cusp_sign` with the numerator identified; the denominator is the model's own `|c′|² · sqrt(|c′|²)` -/
+theorem cusp_sign_model_form (c : CubicBez K) (d t : K) :
+    (CubicOffset.new c d).cusp_sign t
+      = d * ((c.deriv.deriv.eval t).x * (c.deriv.eval t).y - (c.deriv.deriv.eval t).y * (c.deriv.eval t).x)
+          / (((c.deriv.eval t).x ^ 2 + (c.deriv.eval t).y ^ 2)
+              * Scalar.sqrt ((c.deriv.eval t).x ^ 2 + (c.deriv.eval t).y ^ 2)) + 1 := by
+  rw [← cusp_sign_numerator]
+  have e : (Vec2.hypot2 ((c.deriv.eval t).to_vec2) : K) = (c.deriv.eval t).x ^ 2 + (c.deriv.eval t).y ^ 2 := by
+    simp only [kdefs, scalar_norm]; ring
+  simp only [CubicOffset.cusp_sign, c18_new_q, scalar_norm, e, Nat.cast_one]
+
+/-- `eval_deriv` is `cusp_sign` times the source velocity (definitionally; holds for every `Scalar`) -/
+theorem offset_eval_deriv_eq {K' : Type} [Scalar K'] (c : CubicBez K') (d t : K') :
+    (CubicOffset.new c d).eval_deriv t = (CubicOffset.new c d).cusp_sign t * (c.deriv.eval t).to_vec2 := rfl
+
+end lawful
+
+section real
+variable [Scalar ℝ] [LawfulScalar ℝ] [C18RealLaws]
+
+/-! ### B.3 the offset point -/
+
+/-- Where the source velocity `v = c′(t)` does not vanish, the offset vector `o = offset point − source point` has
+    length `|d|`, is orthogonal to `v`, and `v × o = d·|v|`: `o = d·(−v.y, v.x)/|v|`, the unit tangent turned by
+    `turn_90`.  For `d > 0` it points to the side towards which `+x` turns into `+y`: the LEFT of the direction of
+    travel in a `y`-up picture, the RIGHT on a `y`-down screen (kurbo's usual reading); `d < 0` gives the other side. -/
+theorem offset_point_distance (c : CubicBez ℝ) (d t : ℝ) (h : c.deriv.eval t ≠ ⟨0, 0⟩) :
+    let o : Vec2 ℝ := (CubicOffset.new c d).eval t - c.eval t
+    let v : Point ℝ := c.deriv.eval t
+    o.x ^ 2 + o.y ^ 2 = d ^ 2 ∧ o.x * v.x + o.y * v.y = 0 ∧
+      v.x * o.y - v.y * o.x = d * Real.sqrt (v.x ^ 2 + v.y ^ 2) ∧
+      o = ⟨d * (-v.y / Real.sqrt (v.x ^ 2 + v.y ^ 2)), d * (v.x / Real.sqrt (v.x ^ 2 + v.y ^ 2))⟩ := by
+  intro o v
+  have hv : ¬ (v.x = 0 ∧ v.y = 0) := c18_point_ne_zero h
+  have hs := c18_sqrt_pos hv
+  have ho : o = ⟨-v.y * d * (1 / Real.sqrt (v.x ^ 2 + v.y ^ 2)), v.x * d * (1 / Real.sqrt (v.x ^ 2 + v.y ^ 2))⟩ := by
+    show ((CubicOffset.new c d).eval t - c.eval t : Vec2 ℝ) = _
+    rw [← c18_eval_offset_eq]
+    simp only [CubicOffset.eval, c18_new_c]
+    exact c18_point_add_sub _ _
+  set s := Real.sqrt (v.x ^ 2 + v.y ^ 2) with hsdef
+  have hne : s ≠ 0 := ne_of_gt hs
+  have hss : s ^ 2 = v.x ^ 2 + v.y ^ 2 := Real.sq_sqrt (by positivity)
+  have hinv : (1 / s) ^ 2 * (v.x ^ 2 + v.y ^ 2) = 1 := by rw [← hss]; field_simp
+  have hinv2 : (1 / s) * (v.x ^ 2 + v.y ^ 2) = s := by rw [← hss]; field_simp
+  rw [ho]
+  refine ⟨?_, ?_, ?_, ?_⟩
+  · simp only
+    linear_combination (d ^ 2) * hinv
+  · simp only
+    ring
+  · simp only
+    linear_combination d * hinv2
+  · simp only [Vec2.mk.injEq]
+    constructor <;> ring
+
+/-- where the source velocity vanishes the model's offset vector is `0` (division by `hypot = 0`), so the "offset
+    curve" passes through the source point there -/
+theorem offset_point_degenerate (c : CubicBez ℝ) (d t : ℝ) (h : c.deriv.eval t = ⟨0, 0⟩) :
+    (CubicOffset.new c d).eval t = c.eval t := by
+  have e := c18_eval_offset_eq c d t
+  rw [h] at e
+  simp only [CubicOffset.eval, c18_new_c, e]
+  simp only [kdefs, scalar_norm]
+  cases c.eval t
+  simp
+
+/-- the end points of the offset curve (what a path fitted to it starts and ends at): the source end points moved by
+    `d` along `turn_90` of the unit end tangents `p1 − p0`, `p3 − p2`.  (No hypothesis: for `p1 = p0` resp. `p3 = p2` the
+    model's velocity vanishes and both sides are the source end point, cf. `offset_point_degenerate`.) -/
+theorem offset_eval_zero (c : CubicBez ℝ) (d : ℝ) :
+    (CubicOffset.new c d).eval 0 =
+      ⟨c.p0.x + d * (-(c.p1.y - c.p0.y) / Real.sqrt ((c.p1.x - c.p0.x) ^ 2 + (c.p1.y - c.p0.y) ^ 2)),
+       c.p0.y + d * ((c.p1.x - c.p0.x) / Real.sqrt ((c.p1.x - c.p0.x) ^ 2 + (c.p1.y - c.p0.y) ^ 2))⟩ := by
+  simp only [CubicOffset.eval, c18_new_c, c18_eval_offset_eq, c18_deriv_eval_zero, c18_sqrt_scale3,
+    (cubic_eval_zero_one c).1, point_add_vec, scalar_norm, Point.mk.injEq]
+  constructor
+  · rcases eq_or_ne (Real.sqrt ((c.p1.x - c.p0.x) ^ 2 + (c.p1.y - c.p0.y) ^ 2)) 0 with h | h
+    · rw [h]; simp
+    · field_simp
+  · rcases eq_or_ne (Real.sqrt ((c.p1.x - c.p0.x) ^ 2 + (c.p1.y - c.p0.y) ^ 2)) 0 with h | h
+    · rw [h]; simp
+    · field_simp
+
+theorem offset_eval_one (c : CubicBez ℝ) (d : ℝ) :
+    (CubicOffset.new c d).eval 1 =
+      ⟨c.p3.x + d * (-(c.p3.y - c.p2.y) / Real.sqrt ((c.p3.x - c.p2.x) ^ 2 + (c.p3.y - c.p2.y) ^ 2)),
+       c.p3.y + d * ((c.p3.x - c.p2.x) / Real.sqrt ((c.p3.x - c.p2.x) ^ 2 + (c.p3.y - c.p2.y) ^ 2))⟩ := by
+  simp only [CubicOffset.eval, c18_new_c, c18_eval_offset_eq, c18_deriv_eval_one, c18_sqrt_scale3,
+    (cubic_eval_zero_one c).2, point_add_vec, scalar_norm, Point.mk.injEq]
+  constructor
+  · rcases eq_or_ne (Real.sqrt ((c.p3.x - c.p2.x) ^ 2 + (c.p3.y - c.p2.y) ^ 2)) 0 with h | h
+    · rw [h]; simp
+    · field_simp
+  · rcases eq_or_ne (Real.sqrt ((c.p3.x - c.p2.x) ^ 2 + (c.p3.y - c.p2.y) ^ 2)) 0 with h | h
+    · rw [h]; simp
+    · field_simp
+/-! ### B.4 the cusp sign -/
+
+/-- `cusp_sign t = 1 + d·(c″(t) × c′(t)) / |c′(t)|³` (for every `t`; where `c′(t) = 0` both sides are `1`) -/
+theorem cusp_sign_formula (c : CubicBez ℝ) (d t : ℝ) :
+    (CubicOffset.new c d).cusp_sign t
+      = 1 + d * ((c.deriv.deriv.eval t).x * (c.deriv.eval t).y - (c.deriv.deriv.eval t).y * (c.deriv.eval t).x)
+          / Real.sqrt ((c.deriv.eval t).x ^ 2 + (c.deriv.eval t).y ^ 2) ^ 3 := by
+  rw [cusp_sign_model_form, C18RealLaws.sqrt_eq]
+  have hss : Real.sqrt ((c.deriv.eval t).x ^ 2 + (c.deriv.eval t).y ^ 2) ^ 3
+      = ((c.deriv.eval t).x ^ 2 + (c.deriv.eval t).y ^ 2)
+        * Real.sqrt ((c.deriv.eval t).x ^ 2 + (c.deriv.eval t).y ^ 2) := by
+    have := Real.mul_self_sqrt (show 0 ≤ (c.deriv.eval t).x ^ 2 + (c.deriv.eval t).y ^ 2 by positivity)
+    linear_combination Real.sqrt ((c.deriv.eval t).x ^ 2 + (c.deriv.eval t).y ^ 2) * this
+  rw [hss]; ring
+
+/-- with the usual signed curvature `κ = (c′ × c″)/|c′|³` (positive where the curve turns from `+x` towards `+y`):
+    `cusp_sign = 1 − d·κ`.  It vanishes exactly where the offset curve has a cusp (`κ = 1/d`). -/
+theorem cusp_sign_curvature (c : CubicBez ℝ) (d t : ℝ) :
+    (CubicOffset.new c d).cusp_sign t
+      = 1 - d * (((c.deriv.eval t).x * (c.deriv.deriv.eval t).y - (c.deriv.eval t).y * (c.deriv.deriv.eval t).x)
+          / Real.sqrt ((c.deriv.eval t).x ^ 2 + (c.deriv.eval t).y ^ 2) ^ 3) := by
+  rw [cusp_sign_formula]; ring
+
+/-- the offset curve keeps the direction of travel of the source (`cusp_sign > 0`) exactly where `d·κ < 1`, i.e. where
+    the centre of curvature is not reached: `κ ≤ 0` on the side of a positive `d`, or radius of curvature `1/κ > d` -/
+theorem cusp_sign_pos_iff (c : CubicBez ℝ) (d t : ℝ) :
+    0 < (CubicOffset.new c d).cusp_sign t ↔
+      d * (((c.deriv.eval t).x * (c.deriv.deriv.eval t).y - (c.deriv.eval t).y * (c.deriv.deriv.eval t).x)
+          / Real.sqrt ((c.deriv.eval t).x ^ 2 + (c.deriv.eval t).y ^ 2) ^ 3) < 1 := by
+  rw [cusp_sign_curvature]; constructor <;> intro h <;> linarith
+
+/-! ### B.5 the derivative of the offset curve -/
+
+/-- Where the source velocity does not vanish, `eval_deriv t = cusp_sign t · c′(t)` IS the derivative of the offset
+    curve `u ↦ (CubicOffset.new c d).eval u`, coordinate by coordinate (`c′`, `c″` are the derivatives of `c.eval`,
+    `c.deriv.eval`: `cubic_deriv_hasDerivAt`, `quad_deriv_hasDerivAt` of C06). -/
+theorem offset_deriv (c : CubicBez ℝ) (d t : ℝ) (h : c.deriv.eval t ≠ ⟨0, 0⟩) :
+    HasDerivAt (fun u => ((CubicOffset.new c d).eval u).x) ((CubicOffset.new c d).eval_deriv t).x t ∧
+    HasDerivAt (fun u => ((CubicOffset.new c d).eval u).y) ((CubicOffset.new c d).eval_deriv t).y t := by
+  have hv := c18_point_ne_zero h
+  have hX := (quad_deriv_hasDerivAt c.deriv t).1
+  have hY := (quad_deriv_hasDerivAt c.deriv t).2
+  have hx := (cubic_deriv_hasDerivAt c t).1
+  have hy := (cubic_deriv_hasDerivAt c t).2
+  have ex : (fun u => ((CubicOffset.new c d).eval u).x) = fun u => (c.eval u).x
+      + -(c.deriv.eval u).y * d * (1 / Real.sqrt ((c.deriv.eval u).x ^ 2 + (c.deriv.eval u).y ^ 2)) := by
+    funext u
+    simp only [CubicOffset.eval, c18_new_c, c18_eval_offset_eq, point_add_vec, scalar_norm]
+  have ey : (fun u => ((CubicOffset.new c d).eval u).y) = fun u => (c.eval u).y
+      + (c.deriv.eval u).x * d * (1 / Real.sqrt ((c.deriv.eval u).x ^ 2 + (c.deriv.eval u).y ^ 2)) := by
+    funext u
+    simp only [CubicOffset.eval, c18_new_c, c18_eval_offset_eq, point_add_vec, scalar_norm]
+  rw [ex, ey]
+  constructor
+  · refine (hx.fun_add (c18_hasDerivAt_offset_x d hX hY hv)).congr_deriv ?_
+    rw [offset_eval_deriv_eq, cusp_sign_formula]
+    simp only [vec2_smul, Point.to_vec2, scalar_norm]
+    ring
+  · refine (hy.fun_add (c18_hasDerivAt_offset_y d hX hY hv)).congr_deriv ?_
+    rw [offset_eval_deriv_eq, cusp_sign_formula]
+    simp only [vec2_smul, Point.to_vec2, scalar_norm]
+    ring
+
+end real
+end Kurbo
+
+/-! ## Non-vacuity and concrete values -/
+namespace Kurbo
+namespace C18Examples
+
+-- example data (defined in `Proofs/Lemmas/C18.lean`): `c18_cb = ⟨(1,2), (3,5), (4,−1), (7,3)⟩`, an S-shaped cubic;
+-- `c18_cbDeg` = the same with `p1 = p0` (vanishing velocity at `t = 0`)
+
+-- the class assumptions of part B are satisfiable (ℝ with Mathlib's `√`)
+example : ∃ (S : Scalar ℝ) (_ : @LawfulScalar ℝ _ _ _ _ S), @C18RealLaws S :=
+  ⟨c18_realScalar, c18_realScalar_lawful, c18_realScalar_laws⟩
+
+-- values on the executable scalar: `(∫ y dx, ∫ x y dx, ∫ y² dx)` of `c18_cb` (checked against an independent exact
+-- integration of the Bernstein polynomials: 267/20, 1437/28, 2167/70)
+example : momentIntegrals c18_cb = (267 / 20, 1437 / 28, 2167 / 70) := by decide +kernel
+-- additivity at `t = 1/3`
+example : momentIntegrals (c18_cb.subsegment ⟨0, 1 / 3⟩) + momentIntegrals (c18_cb.subsegment ⟨1 / 3, 1⟩)
+    = momentIntegrals c18_cb := by decide +kernel
+-- first component against the signed area: `½(7·3 − 1·2) − (−77/20) = 267/20`
+example : c18_cb.signed_area = -77 / 20 ∧ (momentIntegrals c18_cb).1 = (7 * 3 - 1 * 2) / 2 - c18_cb.signed_area := by
+  decide +kernel
+-- hypothesis of `offset_point_distance` / `offset_deriv`: non-vanishing velocity (here at `t = 1/2`)
+example : c18_cb.deriv.eval (1 / 2) ≠ ⟨0, 0⟩ := by decide +kernel
+-- hypothesis of `offset_point_degenerate`: vanishing velocity
+example : c18_cbDeg.deriv.eval 0 = ⟨0, 0⟩ := by decide +kernel
+-- `cusp_sign_numerator` on `c18_cb`, `d = 2`, `t = 1/2`: the prepared quadratic `(c2·t + c1)·t + c0 = (−288/2 − 1044)/2 + 540 = −54`
+-- and `d·(c″×c′) = 2·(3·(−15/4) − 3·(21/4)) = −54`
+example : ((CubicOffset.new c18_cb 2).c0, (CubicOffset.new c18_cb 2).c1, (CubicOffset.new c18_cb 2).c2) = (540, -1044, -288) ∧
+    c18_cb.deriv.eval (1 / 2) = ⟨21 / 4, -15 / 4⟩ ∧ c18_cb.deriv.deriv.eval (1 / 2) = ⟨3, 3⟩ := by decide +kernel
+
+end C18Examples
 end Kurbo
